@@ -25,6 +25,16 @@
   releases every source (`run_released`, `concat_released`, `zipAll_released`); per-source order /
   no loss / no duplication (`zip_component_prefix`, `concat_values_sublist`, `bufferWhen_partition`,
   `bufferWhen_prefix`; for groupBy and windowWhen it is the shape of the specification itself).
+
+  True concurrency (last sentence of C05): micro-step models (RoModel/MultiB/Micro.lean: threads =
+  sources, one transition per critical section / atomic operation / destination call) of Zip,
+  CombineLatest, BufferWhen, WindowWhen; the clause FAILS for all four — witness theorems
+  `Micro.*_concurrent_*_witness` below (a schedule whose delivered trace is the specification's value
+  for no compatible arrival order; for Zip also a self-deadlock and a reordering). The stress runs of
+  harness kind `multibc` find the same outcomes on the real code and check that every outcome the
+  real code shows is reachable in the micro-step model. ConcatAll and GroupBy have a single feeder
+  at any time (the outer source is blocked in `Wait`; GroupBy has one source), so the clause is
+  vacuous for them.
 -/
 import RoProofs.MultiB.Core
 import RoProofs.MultiB.Arrivals
@@ -37,6 +47,7 @@ import RoProofs.MultiB.Concat
 import RoProofs.MultiB.GroupBy
 import RoProofs.MultiB.Corollaries
 import RoProofs.MultiB.ZipCorollaries
+import RoProofs.MultiB.MicroWitness
 namespace Ro.C05b
 open Ro Ro.MultiB
 
@@ -153,3 +164,9 @@ end Ro.C05b
 #print axioms Ro.MultiB.groupBy_spec_partial
 #print axioms Ro.MultiB.groupBy_late_witness
 #print axioms Ro.MultiB.groupBy_error_witness
+#print axioms Ro.MultiB.Micro.zip_concurrent_lost_tuple_witness
+#print axioms Ro.MultiB.Micro.zip_concurrent_deadlock_witness
+#print axioms Ro.MultiB.Micro.zip_concurrent_reorder_witness
+#print axioms Ro.MultiB.Micro.combineLatest_concurrent_duplicate_witness
+#print axioms Ro.MultiB.Micro.bufferWhen_concurrent_lost_buffer_witness
+#print axioms Ro.MultiB.Micro.windowWhen_concurrent_lost_value_witness
